@@ -317,6 +317,18 @@ func e1EvalFile(x []byte, p e1Props) (out e1FileOut) {
 			}
 		}
 	}
+	if p.C03 && !out.Accepted && okSR && errSR != nil {
+		// the other direction: a file the io.Reader path reproduces exactly must be accepted by the SliceReader path
+		var fr *mp4.File
+		var rerr, eerr error
+		var renc []byte
+		if pan := call(func() { fr, rerr = mp4.DecodeFile(bytes.NewReader(x)) }); pan == "" && rerr == nil && fr != nil {
+			fr.FragEncMode = mp4.EncModeBoxTree
+			if pan := call(func() { renc, eerr = encodeFile(fr, false) }); pan == "" && eerr == nil && bytes.Equal(renc, x) {
+				*fails = append(*fails, e1Fail{"C03", "file fixed point of the reader path rejected by the SliceReader path: " + errRoot(errSR), "a file the io.Reader path reproduces exactly is accepted by the SliceReader path", errSR.Error()})
+			}
+		}
+	}
 	if !out.Accepted || !(p.C01 || p.C02 || p.C03) {
 		return out
 	}
